@@ -11,7 +11,7 @@ package convert
 // touching these contracts.
 
 //@ func toResultCode
-//@   props C11
+//@   props C11 C12
 //@   nopanic
 //@   modifies nothing
 //@   ensures (result1 == nil) == isconst(in, autogen.ResultCode)
@@ -25,7 +25,7 @@ package convert
 //@   ensures imp(result1 == nil, isconst(result0, autogen.ResultCode))
 
 //@ func toQoS
-//@   props C11
+//@   props C11 C12
 //@   nopanic
 //@   modifies nothing
 //@   ensures (result1 == nil) == isconst(in, autogen.QoS)
